@@ -317,6 +317,9 @@ def rule_insert_table(an, res, prop):
                     res.count('paths_pruned_infeasible')      # allow always has at least one bit set
                     continue
                 ok = (len(want) == 1 and cls in want)
+                if not ops.named(m) and upd is None and ins is None:
+                    # a convenience wrapper that takes no allow argument fixes its own mode: any row of the table for this presence
+                    ok = cls in want
                 if prop == 'C09':
                     res.ob('R-INSERT-TABLE', ok=ok)
                     res.sample(dict(container=cm.name, method=b.where, valuation=val, outcome=cls, expected=sorted(want)), cap=10)
@@ -331,6 +334,8 @@ def rule_insert_table(an, res, prop):
                     if b.in_loop is None:
                         rt = ret_truth(seg)
                         okr = (rt == success) if cls != 'OTHER' else True
+                        if rt is None and not ops.named(m):
+                            okr = True          # a new operation may report through something else than the bool of insert()
                         res.ob('R-RETURN-TRUTH', ok=okr)
                         if not okr:
                             V(res, prop, 'R-RETURN-TRUTH', cm, b.where, 'returns %s on a path whose outcome is %s' % (rt, cls),
@@ -464,9 +469,14 @@ def rule_noninterference(an, res):
                         if exp is True:
                             case = 'expired-hit'
                             fk = next(c[1][0] for c in seg.conds if c[0] in ('EXPIRED', 'EXPIRED_STRICT') and c[1][0].kind == 'FOUND')
-                            ok = remove_group_ok(effs, fk) and not extra
+                            ok = (remove_group_ok(effs, fk) or not effs) and not extra     # discarding it is allowed, not required
                         elif peek is True:
                             case = 'peek-hit'
+                            ok = not effs and not extra
+                        elif peek is None and present is True and exp is not True and \
+                                any('peek' in (p.get('type', {}).get('qualType', '') or '') for p in m.params):
+                            # the method takes a peek argument and this hit never looks at it: the path is also the peeking call's
+                            case = 'peek-hit (peek argument not consulted)'
                             ok = not effs and not extra
                     if case is None:
                         continue
@@ -827,6 +837,15 @@ def check_purge_first(res, prop, cm, roles, m, top):
             if msg not in res.incomplete:
                 res.incomplete.append(msg)
             return
+    if not ok and first_purge is None and not ops.named(m) and ops.kind_of(m) == 'FIND' and not top.state_effects() \
+            and not any(s2.state_effects() for s2 in top.all_segments()):
+        # a pure observer added later (`contains() const`): it cannot purge; it is right if every hit is tested against the entry's
+        # own deadline with the call's clock sample before it is reported
+        bodies = ops.find_bodies(top, m)
+        hits = [b for b in bodies if b.seg.cond('PRESENT') is True]
+        if bodies and all(any(c[0] in ('EXPIRED', 'EXPIRED_STRICT') and isinstance(c[1][0], Ent) and c[1][0].kind in ('TTLOF', 'VIA', 'FOUND')
+                              for c in b.seg.conds) for b in hits):
+            ok = True
     # the purge (and every deadline written) uses a clock sample of the atomic step itself: in ut_map/ut_set the ttl list is
     # appended in lock order, so it is deadline-sorted only if clock samples are taken in lock order too, and "size() ==
     # live keys immediately after the call" needs the purge time to be inside the step, not before a wait for the mutex
@@ -918,6 +937,8 @@ def check_erase_truth(res, prop, cm, roles, m, b):
     if b.in_loop is None:
         rt = ret_truth(seg)
         ok = rt == removed
+        if rt is None and not ops.named(m):
+            ok = True           # an erase-like operation added later may report through something else than erase()'s bool
         res.ob('R-ERASE-TRUTH', ok=ok)
         if not ok:
             V(res, prop, 'R-ERASE-TRUTH', cm, b.where, 'erase returns %s on a path that %s the entry' % (rt, 'removes' if removed else 'does not remove'),
